@@ -12,12 +12,16 @@ import (
 	"crypto/ed25519"
 	"crypto/sha256"
 	"encoding/base64"
+	"encoding/hex"
 	"encoding/json"
 	"fmt"
 	"io"
 	"math/rand"
 	"net/http"
+	"os"
+	"os/exec"
 	"sort"
+	"strconv"
 	"strings"
 	"time"
 
@@ -520,6 +524,80 @@ func init() {
 		}
 		return args, np
 	})
+	// [shape; depth; api]: a document nested `depth` deep, handed to one byte-level entry point IN
+	// THIS PROCESS (used through C18.deep, which runs it in a child process)
+	RegisterImpl("C18.deepchild", func(args [][]byte) ([][]byte, []byte) {
+		n, _ := strconv.Atoi(string(args[1]))
+		var b []byte
+		switch string(args[0]) {
+		case "arr":
+			b = append(bytes.Repeat([]byte("["), n), bytes.Repeat([]byte("]"), n)...)
+		case "obj":
+			b = append(append(bytes.Repeat([]byte(`{"a":`), n), '1'), bytes.Repeat([]byte("}"), n)...)
+		case "mixed":
+			b = append(append(bytes.Repeat([]byte(`{"a":[`), n/2), '1'), bytes.Repeat([]byte("]}"), n/2)...)
+		case "content": // an event whose content nests
+			inner := append(append(bytes.Repeat([]byte(`{"a":`), n), '1'), bytes.Repeat([]byte("}"), n)...)
+			b = []byte(`{"auth_events":[],"content":` + string(inner) + `,"depth":1,"hashes":{"sha256":"AAAA"},"origin_server_ts":1,"prev_events":[],"room_id":"!r:x","sender":"@a:x","type":"m.x","signatures":{"x":{"ed25519:1":"` + strings.Repeat("A", 86) + `"}}}`)
+		case "unopened": // closers first: shallow for a counter, invalid for a parser
+			b = append(bytes.Repeat([]byte("]"), n), bytes.Repeat([]byte("["), n)...)
+		}
+		switch string(args[2]) {
+		case "canonical":
+			_, _ = gmsl.CanonicalJSON(b)
+		case "enforced":
+			_, _ = gmsl.EnforcedCanonicalJSON(b, gmsl.RoomVersionV10)
+			_, _ = gmsl.EnforcedCanonicalJSON(b, gmsl.RoomVersionV1)
+		case "verify":
+			_ = gmsl.VerifyJSON("x", "ed25519:1", make([]byte, 32), b)
+			_, _ = gmsl.SignJSON("x", "ed25519:1", ed25519.NewKeyFromSeed(make([]byte, 32)), b)
+		case "event":
+			for _, v := range []gmsl.RoomVersion{gmsl.RoomVersionV1, gmsl.RoomVersionV10, gmsl.RoomVersionV12} {
+				verImpl, _ := gmsl.GetRoomVersion(v)
+				if ev, err := verImpl.NewEventFromUntrustedJSON(b); err == nil && ev != nil {
+					_ = ev.EventID()
+					ev.Redact()
+				}
+				_, _ = verImpl.RedactEventJSON(b)
+				_ = verImpl.CheckCanonicalJSON(b)
+			}
+		case "keys":
+			var keys gmsl.ServerKeys
+			if json.Unmarshal(b, &keys) == nil {
+				_, _ = gmsl.CheckKeys("x", time.Now(), keys)
+			}
+		}
+		return args, np
+	})
+	// [shape; depth; api]: C18.deepchild in a child process: a stack overflow is a fatal error that
+	// no recover() sees, so it can only be observed from outside
+	RegisterImpl("C18.deep", func(args [][]byte) ([][]byte, []byte) {
+		self, err := os.Executable()
+		if err != nil {
+			return args, B("cannot run the child: " + err.Error())
+		}
+		ctx, cancel := context.WithTimeout(context.Background(), 120*time.Second)
+		defer cancel()
+		cmd := exec.CommandContext(ctx, self, "isolated", "C18.deepchild", hex.EncodeToString(args[0]), hex.EncodeToString(args[1]), hex.EncodeToString(args[2]))
+		out, err := cmd.CombinedOutput()
+		if i := bytes.LastIndex(out, []byte("RESULT ")); i >= 0 && err == nil {
+			h := strings.TrimSpace(string(out[i+7:]))
+			if r, derr := hex.DecodeString(h); derr == nil {
+				return args, r
+			}
+		}
+		if ctx.Err() != nil {
+			return args, B("TIMEOUT: no answer within 120 s")
+		}
+		msg := "process ended"
+		for _, l := range strings.Split(string(out), "\n") {
+			if strings.HasPrefix(l, "fatal error:") || strings.HasPrefix(l, "runtime: goroutine stack exceeds") || strings.HasPrefix(l, "panic:") {
+				msg = l
+				break
+			}
+		}
+		return args, B("PANIC: the process ended: " + msg)
+	})
 	// [public key bytes]: keys of any length against a WELL-FORMED (64-byte) signature: the paths
 	// that hand a remote-supplied key to ed25519.Verify (VerifyJSON directly, the verify_keys and
 	// old_verify_keys of a key response)
@@ -913,6 +991,22 @@ func genC18(c *Ctx) {
 			c.Run("C18.cycle", [][]byte{B(string(v)), mk("$p1:x", "m.room.power_levels", "", "$p1:x"), mk("$t:x", "m.room.topic", "", "$p1:x")},
 				"C18.nopanic", "", "a power-level event naming itself as auth event")
 			c.Count("cycle")
+		}
+	}
+	// documents nested just inside / outside the depth encoding/json accepts, and far outside
+	for _, shape := range []string{"arr", "obj", "mixed", "content", "unopened"} {
+		for _, api := range []string{"canonical", "enforced", "verify", "event", "keys"} {
+			depths := []string{"9999", "10001", "150000"}
+			if c.Thorough() {
+				depths = append(depths, "10000", "1000000")
+			}
+			for _, d := range depths {
+				if shape == "content" && api != "event" && api != "canonical" {
+					continue
+				}
+				c.Run("C18.deep", Args(shape, d, api), "C18.nopanic", "", "nesting "+shape+" depth "+d+" through "+api)
+				c.Count("deep/" + api)
+			}
 		}
 	}
 	for _, n := range []int{0, 1, 16, 31, 32, 33, 48, 63, 64, 65, 100} {
